@@ -307,7 +307,12 @@ func upload(c *core.Case, srv *fixture.Server, cl *refclient.Client, target stri
 		items = append(items, xfer.UpItem{IsFolder: f.n.dir, Path: pb, Data: f.n.data})
 		total += len(f.n.data)
 	}
-	rep, ok := cl.Call(213, rc.FS(201, target), rc.F(202, rc.PathS("Uploads")), rc.F(108, rc.U32(total)), rc.F(220, rc.U16(len(items))))
+	cnt := rc.U16(len(items))
+	if r.Chance(1, 4) {
+		cnt = rc.U32(len(items)) // the item count as a 4-byte integer, which the protocol allows as well
+		c.Count("item_count_as_4_bytes", 1)
+	}
+	rep, ok := cl.Call(213, rc.FS(201, target), rc.F(202, rc.PathS("Uploads")), rc.F(108, rc.U32(total)), rc.F(220, cnt))
 	if !ok || rep.Err != 0 {
 		c.Fail("C10/upload/request-refused", "folder upload request refused: %v", rep)
 		return false
